@@ -1,0 +1,9 @@
+//go:build verif
+
+package cache
+
+// VerifSetCacheSize exposes setCacheSize to the verification harness (build tag verif only),
+// so that eviction can be forced with a small number of loaded entities.
+func (c *RepoCache) VerifSetCacheSize(size int) {
+	c.setCacheSize(size)
+}
